@@ -8,6 +8,7 @@ Exactly one worker runs at any time, so a run is deterministic given the decisio
 replayable witness.  A worker that does not report within BLOCK_S seconds while it holds the turn is treated as blocked
 (e.g. on a lock held by a parked thread) and the turn is handed to another runnable thread.
 """
+import contextlib
 import queue
 import sys
 import threading
@@ -52,10 +53,13 @@ class Worker:
 
 def run_schedule(V, fns, watched, max_preemptions, max_points=400):
     """run the thunks in `fns` concurrently under a solver-chosen schedule; returns (results, trace)"""
+    # everything but the schedule decisions is concrete: thread plumbing runs outside CrossHair's tracing
+    quiet = getattr(V, 'notrace', None) or contextlib.nullcontext
     events = queue.Queue()
-    workers = [Worker(i, fn, events, watched) for i, fn in enumerate(fns)]
-    for w in workers:
-        w.thread.start()
+    with quiet():
+        workers = [Worker(i, fn, events, watched) for i, fn in enumerate(fns)]
+        for w in workers:
+            w.thread.start()
     trace = []
     # which thread starts is a free choice of the schedule (not a preemption)
     current = V.pick('start', list(range(len(workers)))) if len(workers) > 1 else 0
@@ -66,7 +70,8 @@ def run_schedule(V, fns, watched, max_preemptions, max_points=400):
     workers[current].go.release()
     while not all(w.done for w in workers):
         try:
-            ev = events.get(timeout=BLOCK_S)
+            with quiet():
+                ev = events.get(timeout=BLOCK_S)
         except queue.Empty:
             # the thread holding the turn is blocked (lock held by a parked thread): hand the turn on
             blocked.add(current)
@@ -108,8 +113,9 @@ def run_schedule(V, fns, watched, max_preemptions, max_points=400):
             trace.append(('preempt', current, fn_name, lineno, '->', target))
             current = target
         workers[current].go.release()
-    for w in workers:
-        w.thread.join(timeout=BLOCK_S)
+    with quiet():
+        for w in workers:
+            w.thread.join(timeout=BLOCK_S)
     return [w.result for w in workers], trace
 
 
